@@ -25,6 +25,7 @@ Definition atoms (a : action) : list atom :=
   | Create k => [(k, h_create)]
   | PWrite k stamps => [(k, fmap (fun c => add_samples c (map (fun t => (t, t)) stamps)))]
   | DelChan k => [(k, fun _ => None)]
+  | PDelete k a b => [(k, fmap (del_range a b))]
   | Noop => []
   end.
 
@@ -40,7 +41,7 @@ Qed.
 
 Lemma step_atoms st a : step st a = apply_atoms st (atoms a).
 Proof.
-  destruct a as [g s|g a b idx|k|k s|k|]; simpl; unfold apply_atoms, apply_atom; simpl.
+  destruct a as [g s|g a b idx|k|k s|k|k a b|]; simpl; unfold apply_atoms, apply_atom; simpl.
   - rewrite !upd_alter. reflexivity.
   - destruct idx; simpl; rewrite !upd_alter; reflexivity.
   - apply map_eq. intros i. destruct (decide (i = k)) as [->|Hne].
@@ -53,6 +54,7 @@ Proof.
   - apply map_eq. intros i. destruct (decide (i = k)) as [->|Hne].
     + rewrite lookup_partial_alter, lookup_delete. reflexivity.
     + rewrite lookup_partial_alter_ne, lookup_delete_ne by congruence. reflexivity.
+  - rewrite upd_alter. reflexivity.
   - reflexivity.
 Qed.
 
@@ -156,11 +158,12 @@ Proof. intros H [c|]; simpl; [rewrite H|]; reflexivity. Qed.
 (* disjoint channel sets: every pair of atoms is on different keys *)
 Lemma atoms_keys a : forall x, In x (atoms a) -> In x.1 (chans a).
 Proof.
-  destruct a as [g s|g a b idx|k|k s|k|]; simpl; intros x Hx.
+  destruct a as [g s|g a b idx|k|k s|k|k a b|]; simpl; intros x Hx.
   - destruct Hx as [<-|[<-|[]]]; simpl; auto.
   - destruct idx; simpl in Hx.
     + destruct Hx as [<-|[<-|[]]]; simpl; auto.
     + destruct Hx as [<-|[]]; simpl; auto.
+  - destruct Hx as [<-|[]]; simpl; auto.
   - destruct Hx as [<-|[]]; simpl; auto.
   - destruct Hx as [<-|[]]; simpl; auto.
   - destruct Hx as [<-|[]]; simpl; auto.
@@ -179,7 +182,7 @@ Proof.
     apply elem_of_list_In in Hax, Hay.
     intros Heq. apply (Hk ax.1); [apply atoms_keys; assumption|].
     rewrite Heq. apply atoms_keys; assumption. }
-  destruct x as [g s|g a b idx|k|k s|k|], y as [g' s'|g' a' b' idx'|k'|k' s'|k'|];
+  destruct x as [g s|g a b idx|k|k s|k|k a b|], y as [g' s'|g' a' b' idx'|k'|k' s'|k'|k' a' b'|];
     try discriminate; try (simpl; fa; fail).
   - (* Write / Write, same group, disjoint stamps *)
     apply andb_true_iff in H. destruct H as [Hg Hs]. apply Z.eqb_eq in Hg. subst g'.
@@ -232,6 +235,24 @@ Proof.
       try (left; simpl; first [apply idx_data_ne|apply not_eq_sym, idx_data_ne]);
       try (right; simpl; assumption).
   - (* Delete / Noop *) destruct idx; simpl; fa.
+  - (* PWrite / PWrite *)
+    apply andb_true_iff in H. destruct H as [Hk Hs]. apply Z.eqb_eq in Hk. subst k'.
+    pose proof (disjointb_spec _ _ Hs) as Hds.
+    simpl. fa. right. simpl. apply fmap_commute. intros c. apply add_samples_comm.
+    intros t. rewrite !map_fst_pairs. intros H2 H1. eauto.
+  - (* PWrite / PDelete *)
+    apply andb_true_iff in H. destruct H as [Hk Ho]. apply Z.eqb_eq in Hk. subst k'.
+    pose proof (outside_spec _ _ _ Ho) as Hout.
+    simpl. fa. right. simpl. apply fmap_commute. intros c. symmetry. apply del_range_add_samples.
+    intros t. rewrite map_fst_pairs. apply Hout.
+  - (* PDelete / PWrite *)
+    apply andb_true_iff in H. destruct H as [Hk Ho]. apply Z.eqb_eq in Hk. subst k'.
+    pose proof (outside_spec _ _ _ Ho) as Hout.
+    simpl. fa. right. simpl. apply fmap_commute. intros c. apply del_range_add_samples.
+    intros t. rewrite map_fst_pairs. apply Hout.
+  - (* PDelete / PDelete *)
+    apply Z.eqb_eq in H. subst k'.
+    simpl. fa. right. simpl. apply fmap_commute. intros c. apply del_range_comm.
 Qed.
 
 Lemma step_commute x y st :
